@@ -671,14 +671,20 @@ class XsdElement(XsdComponent, ParticleMixin,
                     context.validation_error(validation, self, reason, obj)
                 elif xsd_type not in self.xsi_types:
                     # For complex contents augments permanently the XSD elements
-                    # that collect keys/keyrefs for enabled identities.
+                    # that collect keys/keyrefs. The type is registered only once, so
+                    # all the identities have to be augmented, not only the ones enabled
+                    # in this context, otherwise the result depends on which document
+                    # has been processed first.
                     if xsd_type.has_complex_content():
                         xpath_element = XPathElement(self.name, xsd_type)
-                        for counter in context.identities.values():
-                            if counter.enabled:
-                                try:
-                                    counter.identity.update_elements(xpath_element)
-                                except TypeError as e:
+                        enabled = {
+                            c.identity for c in context.identities.values() if c.enabled
+                        }
+                        for identity in self.maps.identities.values():
+                            try:
+                                identity.update_elements(xpath_element)
+                            except TypeError as e:
+                                if identity in enabled:
                                     context.validation_error(validation, self, e, obj)
 
                     # Register the type only after the identities have been augmented:
